@@ -23,6 +23,18 @@ def cleanup_scratch_own():
     shutil.rmtree(SCRATCH, ignore_errors=True)
 
 
+def janitor():
+    """Remove scratch directories left behind by checks that were killed (their pid is gone)."""
+    base = os.path.dirname(SCRATCH)
+    try:
+        names = os.listdir(base)
+    except OSError:
+        return
+    for n in names:
+        if n.startswith("pid") and n[3:].isdigit() and not os.path.exists("/proc/" + n[3:]):
+            shutil.rmtree(os.path.join(base, n), ignore_errors=True)
+
+
 class Result:
     __slots__ = ("rc", "sig", "timed_out", "out", "err", "log", "wall", "cmd", "env_extra")
 
